@@ -76,6 +76,9 @@ def build(ld, prog, fns=None, stage_prefix='s', hook=None):
     for i, op in enumerate(prog['ops']):
         stage = f'{stage_prefix}{i}'
         k = op[0]
+        # optional arguments are passed positionally at odd positions of a
+        # program and by keyword at even ones (both are public call forms)
+        pos = i % 2 == 1
         operand_ds = operand_m = None
         if k in BINARY:
             spec = op[1]
@@ -94,24 +97,30 @@ def build(ld, prog, fns=None, stage_prefix='s', hook=None):
         if k == 'map':
             ds = ds.map(fns.fn(op[1], stage))
         elif k == 'reshuffle':
-            ds = ds.shuffle(True, rng=np.random.RandomState(op[1]))
+            ds = ds.shuffle(True, np.random.RandomState(op[1])) if pos else \
+                ds.shuffle(reshuffle=True, rng=np.random.RandomState(op[1]))
         elif k == 'localshuffle':
-            ds = ds.shuffle(True, rng=np.random.RandomState(op[2]), buffer_size=op[1])
+            ds = ds.shuffle(True, np.random.RandomState(op[2]), op[1]) if pos else \
+                ds.shuffle(reshuffle=True, rng=np.random.RandomState(op[2]),
+                           buffer_size=op[1])
         elif k == 'mapfail':
             ds = ds.map(fns.raiser(op[1], op[2], stage))
         elif k == 'parmap':
-            ds = ds.map(fns.fn(op[1], stage), num_workers=op[2], buffer_size=op[3],
-                        backend='t')
+            ds = ds.map(fns.fn(op[1], stage), op[2], op[3], 't') if pos else \
+                ds.map(fns.fn(op[1], stage), num_workers=op[2], buffer_size=op[3],
+                       backend='t')
         elif k == 'apply_eager':
             f = fns.fn(op[1], stage)
             ds = ds.apply(lambda d: d.map(f))
         elif k == 'apply_lazy':
             f = fns.fn(op[1], stage)
-            ds = ds.apply(lambda d: d.map(f), lazy=True)
+            ds = ds.apply(lambda d: d.map(f), True) if pos else \
+                ds.apply(lambda d: d.map(f), lazy=True)
         elif k == 'filter':
             ds = ds.filter(fns.pred(op[1], stage))
         elif k == 'efilter':
-            ds = ds.filter(fns.pred(op[1], stage), lazy=False)
+            ds = ds.filter(fns.pred(op[1], stage), False) if pos else \
+                ds.filter(fns.pred(op[1], stage), lazy=False)
         elif k == 'slice':
             kind, payload = op[1], op[2]
             if kind == 'slice':
@@ -167,7 +176,8 @@ def build(ld, prog, fns=None, stage_prefix='s', hook=None):
         elif k == 'key_zip':
             ds = ds.key_zip(operand_ds)
         elif k == 'batch':
-            ds = ds.batch(op[1], drop_last=op[2])
+            ds = ds.batch(op[1], op[2]) if pos else \
+                ds.batch(batch_size=op[1], drop_last=op[2])
         elif k == 'unbatch':
             ds = ds.unbatch()
         elif k == 'batch_map':
@@ -178,33 +188,38 @@ def build(ld, prog, fns=None, stage_prefix='s', hook=None):
             ds = ds.tile(op[1])
         elif k == 'tile_shuffle':
             np.random.seed(op[2])
-            ds = ds.tile(op[1], shuffle=True)
+            ds = ds.tile(op[1], True) if pos else ds.tile(reps=op[1], shuffle=True)
         elif k == 'cycle':
             ds = ds.cycle()
         elif k == 'shuffle':
-            ds = ds.shuffle(False, rng=ScriptedRandomState(scripted_perm(op[1])))
+            ds = ds.shuffle(False, ScriptedRandomState(scripted_perm(op[1]))) if pos else \
+                ds.shuffle(reshuffle=False, rng=ScriptedRandomState(scripted_perm(op[1])))
         elif k == 'sort':
-            ds = ds.sort(fns.sortkey(stage), reverse=op[1])
+            ds = ds.sort(fns.sortkey(stage), sorted, op[1]) if pos else \
+                ds.sort(fns.sortkey(stage), reverse=op[1])
         elif k == 'sort_keyless':
-            ds = ds.sort(reverse=op[1])
+            ds = ds.sort(None, sorted, op[1]) if pos else ds.sort(reverse=op[1])
         elif k == 'shard':
-            ds = ds.shard(op[1], op[2])
+            ds = ds.shard(op[1], op[2]) if pos else \
+                ds.shard(num_shards=op[1], shard_index=op[2])
         elif k == 'split':
-            ds = ds.split(op[1])[op[2]]
+            ds = (ds.split(op[1]) if pos else ds.split(sections=op[1]))[op[2]]
         elif k == 'cache':
             ds = ds.cache()
         elif k == 'ecache':
-            ds = ds.cache(lazy=False)
+            ds = ds.cache(False) if pos else ds.cache(lazy=False)
         elif k == 'catch':
             ds = ds.catch()
         elif k == 'copy':
             ds = ds.copy()
         elif k == 'freeze':
-            ds = ds.copy(freeze=True)
+            ds = ds.copy(True) if pos else ds.copy(freeze=True)
         elif k == 'prefetch1':
-            ds = ds.prefetch(1, op[1])
+            ds = ds.prefetch(1, op[1]) if pos else \
+                ds.prefetch(num_workers=1, buffer_size=op[1])
         elif k == 'prefetcht':
-            ds = ds.prefetch(op[1], op[2], 't')
+            ds = ds.prefetch(op[1], op[2], 't') if pos else \
+                ds.prefetch(num_workers=op[1], buffer_size=op[2], backend='t')
         else:
             raise ValueError(f'unknown op {op!r}')
         # ---- the model alongside (only needed to resolve symbolic forms)
